@@ -367,6 +367,7 @@ class Merge(Expr):
                     right_index,
                     self.suffixes,
                     self.indicator,
+                    _broadcast_side=self.broadcast_side,
                 )
 
         shuffle_npartitions = self.operand("_npartitions") or max(
@@ -698,6 +699,7 @@ class BroadcastJoin(Merge, PartitionsFiltered):
         "suffixes",
         "indicator",
         "_partitions",
+        "_broadcast_side",
     ]
     _defaults = {
         "how": "inner",
@@ -708,7 +710,18 @@ class BroadcastJoin(Merge, PartitionsFiltered):
         "suffixes": ("_x", "_y"),
         "indicator": False,
         "_partitions": None,
+        "_broadcast_side": None,
     }
+
+    @functools.cached_property
+    def broadcast_side(self):
+        # ``Merge._lower`` picks the side to broadcast (and shuffles it) before it
+        # repartitions the other side to the requested ``npartitions``.  Deriving
+        # the side again from the partition counts of the lowered inputs could
+        # select the other side, i.e. the one an outer join has to preserve.
+        if self.operand("_broadcast_side") is not None:
+            return self.operand("_broadcast_side")
+        return super().broadcast_side
 
     def _divisions(self):
         if self.broadcast_side == "left":
